@@ -212,52 +212,85 @@ def get_work(job):
                                                 for a, v in x.attrs)
                 sim.cmd(line)
             sim.cmd("sess 0 0 udp 10.0.0.2:5683%s" % (" mtu=%d" % mtu if mtu else ""))
-            filters = [None] + [gen_filter(r, table) for _ in range(3)]
-            for j, f in enumerate(filters):
-                if f is not None and (b"=" not in f or f.endswith(b"=") or b"&" in f or not f):
-                    continue
-                tok = bytes([0xB0 + j])
-                opts = "11=%s,11=%s" % (b".well-known".hex(), b"core".hex())
-                if f is not None:
-                    opts += ",15=%s" % f.hex()
-                mark = len(sim.log)
-                sim.cmd("send 0 0 type=0 code=1 token=%s opts=%s" % (tok.hex(), opts))
-                sim.run(until=sim.elapsed() + 5000, quiesce=False)
-                rsp = [e for e in sim.log[mark:] if e["e"] == "rsp" and e.get("n") == 0
-                       and e["tok"] == tok.hex()]
-                nblocks = sum(1 for e in sim.log[mark:] if e["e"] == "wire" and
-                              e["from"].startswith("10.0.0.2"))
-                stats["gets"] += 1
-                if nblocks > 1:
-                    stats["blockwise_gets"] += 1
-                sel = [LF.selects(f, x) for x in table]
-                if None in sel:
-                    continue
-                expect = [x for x, s_ in zip(table, sel) if s_]
-                fk = "none" if f is None else f.split(b"=")[0].decode("latin1")
-                cov.add((fk, len(table), nblocks > 1, mtu))
-                if not rsp:
-                    run.violation("get/no-response/%s" % fk, dict(witness, filter=repr(f)),
-                                  "GET /.well-known/core%s got no response" %
-                                  ("?" + f.decode("latin1") if f else ""))
-                    continue
-                e = rsp[-1]
-                stats["get_judged"] += 1
-                if not expect and e["code"] in (0x84, 0x45) and not e.get("phex"):
-                    continue             # nothing selected: 4.04 or an empty 2.05 are both fine
-                body = bytes.fromhex(e.get("phex") or "")
-                if e["code"] != 0x45:
-                    run.violation("get/wrong-code/%s" % fk, dict(witness, filter=repr(f)),
-                                  "GET /.well-known/core answered %d.%02d, %d links expected" %
-                                  (e["code"] >> 5, e["code"] & 31, len(expect)))
-                    continue
-                ok, why = LF.match_listing(body, expect)
-                if not ok:
-                    run.violation("get/listing-differs/%s/%s" % (
-                        fk, "blockwise" if nblocks > 1 else "single"),
-                        dict(witness, filter=repr(f), body=body.decode("latin1")),
-                        "filter %r, %d datagrams\nexpected links (any order): %r\nbody: %r" %
-                        (f, nblocks, [next(x.link_variants()) for x in expect], body))
+            # the listing is asked for again after the table changed: "currently registered"
+            rounds = [[None] + [gen_filter(r, table) for _ in range(3)]]
+            for _ in range(r.choice([0, 1, 2, 3])):
+                rounds.append([None, gen_filter(r, table)])
+            tokn = [0]
+            for rnd, filters in enumerate(rounds):
+                if rnd:
+                    x = r.random()
+                    if x < 0.35 and table:
+                        t_ = r.choice(table)
+                        t_.observable = not t_.observable
+                        sim.cmd("resmod 1 %s obs=%d" % (t_.path.hex(), 1 if t_.observable else 0))
+                    elif x < 0.6 and table:
+                        t_ = r.choice(table)
+                        nm = r.choice([n_ for n_ in NAMES if n_ not in [a for a, _ in t_.attrs]] or
+                                      [None])
+                        if nm is not None:
+                            v = gen_value(r, nm)
+                            t_.attrs.append((nm, v))
+                            sim.cmd("resmod 1 %s attr=%s" % (t_.path.hex(), nm.hex() +
+                                                             ("" if v is None else ":" + v.hex())))
+                    elif x < 0.8 and table:
+                        t_ = table.pop(r.randrange(len(table)))
+                        sim.cmd("delres 1 %s" % t_.path.hex())
+                    else:
+                        pth = b"new%d" % rnd
+                        t_ = LF.Res(pth, [(b"rt", b"late")], observable=r.random() < 0.5)
+                        table.append(t_)
+                        sim.cmd("res 1 %s body=fixed:78%s attr=%s:%s" % (
+                            pth.hex(), " obs=1" if t_.observable else "", b"rt".hex(), b"late".hex()))
+                    witness["table_after_round_%d" % rnd] = [
+                        (x_.path.decode("latin1"), x_.observable) for x_ in table]
+                for f in filters:
+                    j = tokn[0]
+                    tokn[0] += 1
+                    if f is not None and (b"=" not in f or f.endswith(b"=") or b"&" in f or not f):
+                        continue
+                    tok = bytes([0xB0 + j])
+                    opts = "11=%s,11=%s" % (b".well-known".hex(), b"core".hex())
+                    if f is not None:
+                        opts += ",15=%s" % f.hex()
+                    mark = len(sim.log)
+                    sim.cmd("send 0 0 type=0 code=1 token=%s opts=%s" % (tok.hex(), opts))
+                    sim.run(until=sim.elapsed() + 5000, quiesce=False)
+                    rsp = [e for e in sim.log[mark:] if e["e"] == "rsp" and e.get("n") == 0
+                           and e["tok"] == tok.hex()]
+                    nblocks = sum(1 for e in sim.log[mark:] if e["e"] == "wire" and
+                                  e["from"].startswith("10.0.0.2"))
+                    stats["gets"] += 1
+                    if nblocks > 1:
+                        stats["blockwise_gets"] += 1
+                    sel = [LF.selects(f, x) for x in table]
+                    if None in sel:
+                        continue
+                    expect = [x for x, s_ in zip(table, sel) if s_]
+                    fk = "none" if f is None else f.split(b"=")[0].decode("latin1")
+                    cov.add((fk, len(table), nblocks > 1, mtu))
+                    if not rsp:
+                        run.violation("get/no-response/%s" % fk, dict(witness, filter=repr(f)),
+                                      "GET /.well-known/core%s got no response" %
+                                      ("?" + f.decode("latin1") if f else ""))
+                        continue
+                    e = rsp[-1]
+                    stats["get_judged"] += 1
+                    if not expect and e["code"] in (0x84, 0x45) and not e.get("phex"):
+                        continue             # nothing selected: 4.04 or an empty 2.05 are both fine
+                    body = bytes.fromhex(e.get("phex") or "")
+                    if e["code"] != 0x45:
+                        run.violation("get/wrong-code/%s" % fk, dict(witness, filter=repr(f)),
+                                      "GET /.well-known/core answered %d.%02d, %d links expected" %
+                                      (e["code"] >> 5, e["code"] & 31, len(expect)))
+                        continue
+                    ok, why = LF.match_listing(body, expect)
+                    if not ok:
+                        run.violation("get/listing-differs/%s/%s" % (
+                            fk, "blockwise" if nblocks > 1 else "single"),
+                            dict(witness, filter=repr(f), body=body.decode("latin1")),
+                            "filter %r, %d datagrams\nexpected links (any order): %r\nbody: %r" %
+                            (f, nblocks, [next(x.link_variants()) for x in expect], body))
             evs, rc, err = w.close()
             if rc not in (0, None):
                 sg = common.sanitizer_signature(err) or "exit-rc%s" % rc
